@@ -16,6 +16,12 @@ payload:
                         event-time request); an out-state is then a function of its in-state even if it
                         draws random numbers (extension beyond the property's quantifier)
   timeout    seconds before the run is declared deadlocked
+  pause      (multi only) schedule perturbation AT the worker's synchronisation operations:
+             {"seed": s, "prob": p, "min_ms": a, "max_ms": b, "ops": ["release", "send", "clear", "wait"]}
+             the objects handed to run_in_process (semaphore, pipe end, start/continue events) are wrapped by
+             forwarding proxies; derived from (s, handler index, operation, per-operation counter) a worker
+             sometimes sleeps a..b ms right AFTER semaphore.release / AFTER pipe.send / BEFORE event.clear /
+             AFTER the or-event wait returned.  Program logic is untouched (every call is forwarded).
 
 Nothing of the implementation is replaced: class-level / instance-level wrappers call the original
 code and only record.  The only semantic additions are the random streams and the sleeps.
@@ -141,6 +147,47 @@ CALLS_OS = multiprocessing.RawArray("i", N_MAX)     # per handler: send_out_stat
 DRAWS_OS = multiprocessing.RawArray("i", N_MAX)     # per handler: send_out_state calls that drew random numbers
 DRAWS_ET = multiprocessing.RawArray("i", N_MAX)
 WORKER_ERR = multiprocessing.RawArray("i", N_MAX)   # worker loop left by an exception
+PAUSES = multiprocessing.RawArray("i", 4 * N_MAX)   # per handler: number of pauses, last op code, last op counter, in-pause
+PAUSE = P.get("pause")
+OPS = {"release": 1, "send": 2, "clear": 3, "wait": 4}
+
+
+def maybe_pause(idx, op, counter):
+    h = hashlib.sha256(("p|%d|%d|%s|%d" % (int(PAUSE["seed"]), idx, op, counter)).encode()).digest()
+    if op not in PAUSE.get("ops", ["release", "send", "clear"]):
+        return
+    if int.from_bytes(h[:4], "big") / 2.0 ** 32 >= float(PAUSE.get("prob", 0.1)):
+        return
+    lo, hi = float(PAUSE.get("min_ms", 10.0)), float(PAUSE.get("max_ms", 30.0))
+    PAUSES[4 * idx] += 1
+    PAUSES[4 * idx + 1] = OPS[op]
+    PAUSES[4 * idx + 2] = counter
+    PAUSES[4 * idx + 3] = 1
+    time.sleep((lo + (hi - lo) * int.from_bytes(h[4:8], "big") / 2.0 ** 32) / 1000.0)
+    PAUSES[4 * idx + 3] = 0
+
+
+class SyncProxy(object):
+    """Forwards everything to the real object; the listed methods pause before / after the real call."""
+
+    def __init__(self, real, idx, before=(), after=()):
+        self.__dict__.update(_real=real, _idx=idx, _before=dict.fromkeys(before, 0), _after=dict.fromkeys(after, 0))
+
+    def __getattr__(self, name):
+        attr = getattr(self._real, name)
+        if name in self._before or name in self._after:
+            def call(*a, **k):
+                op = {"release": "release", "send": "send", "clear": "clear", "wait": "wait"}[name]
+                if name in self._before:
+                    self._before[name] += 1
+                    maybe_pause(self._idx, op, self._before[name])
+                r = attr(*a, **k)
+                if name in self._after:
+                    self._after[name] += 1
+                    maybe_pause(self._idx, op, self._after[name])
+                return r
+            return call
+        return attr
 
 
 def hidx(h):
@@ -287,6 +334,11 @@ def install_multi_patches():
         signal.alarm(0)
         idx = HIDX[id(self)]
         instrument_handler_calls(self, idx, True)
+        if PAUSE:
+            start_event, continue_event, or_event, semaphore = rest
+            pipe = SyncProxy(pipe, idx, after=("send",))
+            rest = (SyncProxy(start_event, idx, before=("clear",)), SyncProxy(continue_event, idx, before=("clear",)),
+                    SyncProxy(or_event, idx, after=("wait",)), SyncProxy(semaphore, idx, after=("release",)))
         try:
             return orig_rip(self, pipe, *rest)
         except BaseException:
@@ -417,6 +469,11 @@ def main():
     out["draws_os"] = list(DRAWS_OS[:n])
     out["draws_et"] = list(DRAWS_ET[:n])
     out["worker_err"] = list(WORKER_ERR[:n])
+    if PAUSE:
+        opn = {v: k for k, v in OPS.items()}
+        out["pauses"] = [{"worker": i, "n": PAUSES[4 * i], "last_op": opn.get(PAUSES[4 * i + 1]),
+                          "last_op_counter": PAUSES[4 * i + 2], "inside_pause_at_end": bool(PAUSES[4 * i + 3])}
+                         for i in range(n) if PAUSES[4 * i]]
     files = {}
     for fn in sorted(os.listdir(tmp)):
         data = open(os.path.join(tmp, fn), "rb").read()
